@@ -7,7 +7,8 @@
    JSON floats are outside the model (see Model/Request.v). *)
 From Coq Require Import List NArith ZArith Arith Bool Lia String.
 From AHK Require Import Lib.Res Lib.ByteStr Model.Request
-  Proofs.RequestLib Proofs.RequestParse Proofs.RequestJson Proofs.RequestIds.
+  Proofs.RequestLib Proofs.RequestParse Proofs.RequestJson Proofs.RequestIds
+  Model.RequestSession Proofs.RequestSession.
 Import ListNotations.
 
 (* request(): request line CRLF Host CRLF {name ": " value CRLF} CRLF body, nothing else,
@@ -104,6 +105,78 @@ Example c09_nonvacuous :
   /\ parse_read_url (read_url [(1, 2); (-3, 40)]%Z) = Some [(1, 2); (-3, 40)]%Z.
 Proof. cbv zeta. repeat split; vm_compute; reflexivity. Qed.
 
+(* ---------------------------------------------------------------------------
+   Histories (Model/RequestSession.v): the connection as a machine over events
+   connect(peer) / secure / lost / close / request, for EVERY history and EVERY
+   AEAD function [seal]; chunk size 1024. *)
+Lemma F1024 : 0 < 1024. Proof. lia. Qed.
+
+(* request() with the stored Host line of peer h is the canonical request to h *)
+Theorem request_bytes_is_render : forall m t b h,
+    request_bytes m t b (host_header h) = render_req (mkReq m t h b).
+Proof. exact request_bytes_host. Qed.
+
+(* refinement: what the machine hands to send_bytes, request by request, is the
+   specification [spec]: a request issued while a connection is up is the canonical
+   request naming THAT connection's peer; issued while none is up it raises and
+   writes nothing.  (So a Host line of an earlier peer can never be sent.) *)
+Theorem history_requests_canonical : forall seal evs,
+    map obs_payload (snd (run 1024 seal conn_init evs)) = spec None evs.
+Proof. exact (run_spec_init 1024 F1024). Qed.
+
+Theorem history_one_observation_per_request : forall seal evs,
+    List.length (snd (run 1024 seal conn_init evs)) = count_req evs.
+Proof. intros seal evs. exact (run_length 1024 seal evs F1024). Qed.
+
+(* "a complete request is handed to the transport in a single call": every request
+   that writes anything is ONE writelines whose argument is the payload itself
+   (plain) or the frames of 1..1024-byte chunks concatenating to it (secure) *)
+Theorem history_single_call : forall seal evs c,
+    Forall (call_ok 1024 seal) (snd (run 1024 seal c evs)).
+Proof. exact (run_calls_ok 1024 F1024). Qed.
+
+(* the hand-off in detail, from any connected state *)
+Theorem handoff_connected : forall seal c payload,
+    c_proto c <> None ->
+    exists c' chunks, send 1024 seal c payload = (c', [OCall payload chunks]) /\ c_proto c' = c_proto c
+      /\ c_connected c' = c_connected c /\ c_hostline c' = c_hostline c
+      /\ match c_proto c with
+         | Some Plain => chunks = [payload] /\ c' = c
+         | Some Secure =>
+             exists cs, chunks = frames seal (c_ctr c) cs /\ List.concat cs = payload
+                        /\ Forall (fun x => 0 < List.length x <= 1024) cs
+                        /\ (forall pre x r, cs = pre ++ x :: r -> r <> [] -> List.length x = 1024)
+                        /\ c_ctr c' = (c_ctr c + N.of_nat (List.length cs))%N
+         | None => False
+         end.
+Proof. exact (send_connected 1024 F1024). Qed.
+
+Theorem handoff_disconnected : forall seal c payload,
+    c_proto c = None -> send 1024 seal c payload = (c, [ORaise]).
+Proof. exact (send_disconnected 1024). Qed.
+
+(* every request written in any history is a rendered request, read back by the strict grammar *)
+Theorem history_requests_parse : forall evs cur,
+    Forall (fun o => match o with
+                     | None => True
+                     | Some bs => exists r, bs = render_req r /\ (wf_req r = true -> parse_req bs = Some r)
+                     end) (spec cur evs).
+Proof. exact spec_parses. Qed.
+
+(* non-vacuity: connect to an IPv4 peer, GET; pair-verify done; a 2500-byte PUT (3 chunks = 6
+   writelines items, counter 0 -> 3); connection lost: a request raises; reconnect to a scoped
+   IPv6 peer: the next request names the NEW peer in brackets *)
+Example c09_history_nonvacuous :
+  let evs := [EConnect (lit "10.0.0.2"); EReq GET (lit "/accessories") None; ESecure;
+              EReq PUT (lit "/characteristics") (Some (CtJson, repeat 120%N 2500)); ELost;
+              EReq GET (lit "/a") None; EConnect (lit "fe80::1%eth0"); EReq GET (lit "/a") None] in
+  let out := run 1024 seal_id conn_init evs in
+  map (fun o => match o with ORaise => 0 | OCall _ ch => List.length ch end) (snd out) = [1; 6; 0; 1]
+  /\ c_ctr (fst out) = 3%N
+  /\ nth 3 (spec None evs) None = Some (render_req (mkReq GET (lit "/a") (lit "fe80::1%eth0") None))
+  /\ nth 2 (spec None evs) (Some []) = None.
+Proof. cbv zeta. repeat split; vm_compute; reflexivity. Qed.
+
 Print Assumptions render_shape.
 Print Assumptions render_req_shape.
 Print Assumptions conn_get_is_render.
@@ -120,3 +193,10 @@ Print Assumptions subscription_groups_cover.
 Print Assumptions api_get_characteristics_wf.
 Print Assumptions api_put_characteristics_wf.
 Print Assumptions api_update_subscriptions_wf.
+Print Assumptions request_bytes_is_render.
+Print Assumptions history_requests_canonical.
+Print Assumptions history_one_observation_per_request.
+Print Assumptions history_single_call.
+Print Assumptions handoff_connected.
+Print Assumptions handoff_disconnected.
+Print Assumptions history_requests_parse.
